@@ -51,6 +51,11 @@ TTsn == /\ IsEvent("tsn")
               /\ PrintOK(e)
               /\ ScanCallsAgree(e.scan)
               /\ IF Has(e.flags, F_SHORT_NAMES) THEN WeakScanRel(r) ELSE RoundTripRel(o, r)
+              \* neighbouring API (hwloc.h): the parsed type and attributes designate the level of the object;
+              \* the type alone does too, except that several Group levels give HWLOC_TYPE_DEPTH_MULTIPLE
+              /\ ("dwa" \in DOMAIN e) = (r.rc = 0 /\ r.type \in TypeIds)
+              /\ (~Has(e.flags, F_SHORT_NAMES) /\ "dwa" \in DOMAIN e) => e.dwa = e.depth
+              /\ e.dt = e.depth \/ (o.type = GROUP /\ e.dt = DEPTH_MULTIPLE)
         /\ UNCHANGED tab
 
 TAsn == /\ IsEvent("asn")
